@@ -197,57 +197,9 @@ def run(prog, rep, tier):
                 rep.violation(R173, inst, "%s (%s) owns file data but nothing reachable from drop_data_try ever removes entries from it; it grows with the file" % (inst, t[:80]))
     rep.floor(R173, 5)
 
-    # ------------------------------------------------------------ R17.5 own references go before the uniqueness test
-    # The release functions free an item with Arc::try_unwrap, which fails while any other strong
-    # reference exists.  References held by the reader's own containers (index maps, LRU caches) must
-    # therefore be removed *before* the test; a removal placed after it (or in its Ok arm) makes the
-    # test fail for every cached item, and the item - with its lines and blocks - is never retried.
-    R175 = rep.rule("R17.5", "a reader's own container entries are removed before Arc::try_unwrap of the item")
-    n175 = 0
-    for st in structs:
-        a = prog.facts.adts.get(st)
-        own_fields = [fl["name"] for fl in a["variants"][0]["fields"]
-                      if any(k in fl["ty"] for k in ("Map<", "Set<", "Vec<", "LruCache<", "LinkedList<", "VecDeque<")) and "std::sync::Arc<" in fl["ty"]]
-        for p_ in sorted(reach):
-            bd = prog.body(p_, required=False)
-            if bd is None or not p_.startswith(st + "::"):
-                continue
-            tus = [c for c in bd.live_calls() if c.d.endswith("Arc::<T, A>::try_unwrap") or c.d.endswith("Arc::<T>::try_unwrap") or c.d.split("::")[-1] in ("try_unwrap", "into_inner") and "Arc" in c.d]
-            if not tus:
-                continue
-            for c in bd.live_calls():
-                if c.d.split("::")[-1] in ("remove", "pop", "pop_entry", "remove_entry") and c.args:
-                    fld = None
-                    for o in bd.origins(c.args[0]):
-                        if o[0] == "arg" and o[1] == 1:
-                            for f_ in own_fields:
-                                if f_ in o[2]:
-                                    fld = f_
-                    if fld is None:
-                        continue
-                    n175 += 1
-                    # a removal guarded by the container's own `<field>_enabled` flag: when the flag is off the
-                    # container holds nothing, so the flag's false edge counts like the removal
-                    via = {c.bb}
-                    for sw in sorted(bd.live):
-                        if bd.term(sw)[0] == "switch":
-                            try:
-                                sd = decide.switch_decisions(bd, sw)
-                            except CheckerError:
-                                sd = None
-                            for tgt, d in (sd or []):
-                                if d[0] == "flag" and d[2] is False and d[1][0] == "arg" and any(fld in str(x) and "enabled" in str(x) for x in d[1][2:]):
-                                    if len(bd.pred[tgt]) == 1:
-                                        via.add(tgt)
-                    late = [t_ for t_ in tus if t_.bb in bd.reachable(0, via)]
-                    inst = "%s|%s" % (p_, fld)
-                    rep.examined(R175, inst, sample={"fn": p_.split("::")[-1], "container": fld, "removal_line": c.line, "try_unwrap_lines": [t_.line for t_ in tus], "removal_dominates_test": not late})
-                    if late:
-                        rep.violation(R175, inst, "%s: the entry in self.%s is removed (line %d) only after / beside Arc::try_unwrap (line %d); while the container still holds a reference the unwrap fails, "
-                                      "and the item with its lines and blocks is kept for the rest of the run" % (p_, fld, c.line, late[0].line))
-    if n175 < 3:
-        raise CheckerError("R17.5: only %d own-container removals found next to try_unwrap" % n175)
-
+    # (R17.5 "own container entries are removed before Arc::try_unwrap" was withdrawn: since failed releases
+    #  are retried (R17.6, repair 7035ad44) a late removal only delays the release by one pass; the seeded
+    #  change it was written for no longer breaks the property, so the rule would be a false alarm.)
     # ------------------------------------------------------------ R17.6 a failed release is retried
     # SyslineReader::drop_data picks its candidates by iterating self.syslines; drop_sysline takes the
     # candidate out of that index before Arc::try_unwrap.  If the unwrap fails (the message is still
